@@ -1429,9 +1429,13 @@ pub fn gen_c17(c: &mut Ctx) {
             if n2 != n {
                 let a = gen_dense(&mut c.rng, n);
                 let b = gen_dense(&mut c.rng, n2);
-                let f = c.rng.below(8);
-                let op = *c.rng.pick(&["and", "or", "xor"]);
-                p!(c, "bin D {} {} {} {}", op, f, a.show(), b.show());
+                // every operator in every syntactic form (owned / borrowed operands, named and
+                // assigning forms): each has its own size guard (seed C17-f: one trait impl lost it)
+                for op in ["and", "or", "xor"] {
+                    for f in 0..10 {
+                        p!(c, "bin D {} {} {} {}", op, f, a.show(), b.show());
+                    }
+                }
                 if n > 0 && n2 > 0 {
                     p!(c, "fromcof D {} {} 0", a.show(), b.show());
                 }
@@ -1443,6 +1447,35 @@ pub fn gen_c17(c: &mut Ctx) {
     c.push("cube minterm 32 ffffffff".to_string());
     c.push("cube minterm 32 0".to_string());
     c.push("cube minterm 31 7fffffff".to_string());
+}
+
+pub fn gen_c19(c: &mut Ctx) {
+    // random() fed from an injected word stream: exactly as many words as the table has, more
+    // (the rest must stay unread), fewer (the hook panics: the call wanted more words), all-ones
+    // and all-equal words, both types
+    let reps = if c.thorough { 12 } else { 3 };
+    for n in 0..=12usize {
+        let ts = table_size(n);
+        for ty in ["D", "S"] {
+            for r in 0..reps {
+                let extra = [0usize, 0, 2, 1][r % 4];
+                let ws: Vec<u64> = (0..ts + extra).map(|_| c.rng.next()).collect();
+                p!(c, "rnd {} {} {}", ty, n, show_words(&ws));
+            }
+            let ones: Vec<u64> = vec![!0u64; ts];
+            p!(c, "rnd {} {} {}", ty, n, show_words(&ones));
+            let w = c.rng.next();
+            let same: Vec<u64> = vec![w; ts + 1];
+            p!(c, "rnd {} {} {}", ty, n, show_words(&same));
+            // one word short
+            let short: Vec<u64> = (0..ts - 1).map(|_| c.rng.next()).collect();
+            if short.is_empty() {
+                p!(c, "rnd {} {} -", ty, n);
+            } else {
+                p!(c, "rnd {} {} {}", ty, n, show_words(&short));
+            }
+        }
+    }
 }
 
 pub fn generate(prop: &str, thorough: bool, seed: u64) -> Vec<String> {
@@ -1464,6 +1497,7 @@ pub fn generate(prop: &str, thorough: bool, seed: u64) -> Vec<String> {
         "C15" => gen_c15(&mut c),
         "C16" => gen_c16(&mut c),
         "C17" => gen_c17(&mut c),
+        "C19" => gen_c19(&mut c),
         _ => {}
     }
     c.out
